@@ -216,6 +216,13 @@ func prepareDet(cfg *config) ([]string, []string, map[string]any, error) {
 		return nil, nil, nil, err
 	}
 	pool = append(pool, detPool{ID: "synthetic/huge-output", Path: hugePath, Heavy: true})
+	// and one whose lexer transition table has about 1.8 million entries (the largest shipped
+	// table, in js, has 0.44 million): thresholds on table sizes are crossed only here
+	tablePath := filepath.Join(hugeDir, "hugetable.tm")
+	if err := os.WriteFile(tablePath, []byte(hugeTableGrammar()), 0o644); err != nil {
+		return nil, nil, nil, err
+	}
+	pool = append(pool, detPool{ID: "synthetic/huge-table", Path: tablePath, Heavy: true})
 	var sites []string
 	var wantProbes []string
 	for _, s := range rw.sites {
@@ -293,6 +300,31 @@ func hugeGrammar() string {
 	}
 	sb.WriteString("}\n")
 	return sb.String()
+}
+
+func hugeTableGrammar() string {
+	var b strings.Builder
+	b.WriteString("language hugetable(go);\n\nlang = \"hugetable\"\npackage = \"github.com/inspirer/textmapper/zzverif/hugetable\"\ngenParser = false\n\n:: lexer\n\n")
+	for i := 0; i < 400; i++ { // each single-character token is a DFA input symbol of its own
+		fmt.Fprintf(&b, "ch%04d: /%c/\n", i, rune(0x400+i))
+	}
+	seen := map[string]bool{}
+	x := uint32(20260922)
+	for n := 0; n < 600; { // each keyword is a chain of states
+		var w [7]byte
+		for i := range w {
+			x = x*1664525 + 1013904223
+			w[i] = byte('a' + (x>>16)%26)
+		}
+		if seen[string(w[:])] {
+			continue
+		}
+		seen[string(w[:])] = true
+		fmt.Fprintf(&b, "kw%04d: /%s/\n", n, w[:])
+		n++
+	}
+	b.WriteString("space: /[ \\t\\r\\n]+/ (space)\n")
+	return b.String()
 }
 
 var langHeaderRe = regexp.MustCompile(`(?m)^language\s+(\S+?)\((\w+)\)`)
